@@ -170,12 +170,14 @@ pub fn lanes_for(prop: &str, tier: &str, seed: u64) -> Vec<Scenario> {
             v.extend(gen_cli::lane_cli_bytes(seed, if thorough { 400 } else { 40 }));
             v.extend(gen_cli::lane_cli_report_bytes(seed));
             v.extend(gen_cli::lane_pairing(seed));
+            v.extend(gen_cli::lane_cli_fates(seed, if thorough { 1 } else { 6 }));
             v.extend(gen_cli::lane_random(Tier::Cli, seed, n_rand_cli, "C13"));
         }
         "C14" => {
             v.extend(gen::lane_timing(Tier::Lib, seed));
             v.extend(gen::lane_early_exit(seed));
             v.extend(gen_cli::lane_script_limits(seed));
+            v.extend(gen_cli::lane_included_limits(seed));
             v.extend(gen_cli::lane_cli_timing(seed, if thorough { 1 } else { 4 }));
             v.extend(gen_cli::lane_random(Tier::Lib, seed, n_rand_lib, "C14"));
             v.extend(gen_cli::lane_random(Tier::Cli, seed, n_rand_cli, "C14"));
